@@ -1177,3 +1177,44 @@ PROPS["C13"]["also"] = list(PROPS["C13"].get("also", [])) + [("C05", "panic")]
 #      (HighPrioOnly::Yes) for its peripherals; monitored in the dp domain as C14's turn_skipped_on_high_prio.
 PROPS["C13"]["domains"] = list(PROPS["C13"]["domains"]) + ["dp"]
 PROPS["C13"]["also"] = list(PROPS["C13"].get("also", [])) + [("C14", "turn_skipped_on_high_prio")]
+
+# ---- ORACLE SOUNDNESS of the FDL monitors (agent fdlx; Proofs/FdlOracleSound1..11.v, FdlOracleSoundAll.v) --------------------------------
+# "The executable monitors of Model/FdlOracle.v that run on the implementation's transcripts never reject a transcript
+#  of the MODEL."  Texts only: what is proved per property, and which rules are NOT yet covered.
+_FDL_OS = ('ORACLE SOUNDNESS (Proofs/FdlOracleSound*.v): model_transcript = the event list the driver would build from a run of the model '
+           '(A new, then any API calls and polls; harness PHY buffer; views computed from the model state); hypotheses: builder-valid '
+           'parameters, any number of total applications, poll times in range and strictly increasing, received bytes are bytes. ')
+PROPS["C01"]["level_note"] += (' ' + _FDL_OS + 'C01_oracle_sound: no rule of C01 of FdlOracle.monitor (tx_while_busy, sync_pause, who_may_transmit, '
+    'check_pass_before_slot, claim_before_timeout) is reported on a model transcript, for ALL input histories - including the corner O9 (state Offline '
+    'with last_bus_activity recorded after the self-re-creation on the second address collision with further telegrams in the buffer: two stations with '
+    'one address, outside the class of C01). The rules were adapted to follow the code there (an offline station observes nothing; the claim reference '
+    'is re-based at the self-offline poll); C01_oracle_corner_accepted is a computed transcript of the corner that the monitor accepts; 12000 fuzzed '
+    'model histories x 800 polls (arbitrary bytes, busy flags, on/off) give no report of any rule.')
+PROPS["C01"]["partial_gap"] += (' Oracle soundness: the promptness monitor Model/FdlPrompt.v (P01_sync_pause_exceeded) is NOT covered.')
+PROPS["C05"]["level_note"] += (' ' + _FDL_OS + 'C05_oracle_sound: neither R05_panic nor R05_timeout is reported, for ALL input histories (set_passive ends '
+    'the transcript with the excused panic).')
+PROPS["C06"]["level_note"] += (' ' + _FDL_OS + 'C06_oracle_sound_partial: R06_no_claim_after_timeout is never reported on a model transcript (all input '
+    'histories, the O9 corner of C01 included).')
+PROPS["C06"]["level_note"] += (' C06_oracle_sound (FdlOracleSound8, FdlOracleSoundAll): no rule of C06 at all - also R06_no_backoff, the executable form of C06_backoff - is '
+    'reported on a model transcript (all input histories, app_sends_data).')
+PROPS["C13"]["level_note"] += (' ' + _FDL_OS + 'C13_oracle_sound: no rule of C13 (low_prio_after_hold_time in both forms, second_cycle_after_hold_time, '
+    'high_prio_inside_hold_time) is reported, for ALL input histories and applications that hand data telegrams to the PHY (app_sends_data). The proof '
+    'found one false alarm, repaired in the monitor: after the self-re-creation (second address collision) last_token_time is 0 again, the monitor '
+    'kept the old token times (high_prio_inside_hold_time on the unchanged crate; reproduction in Properties/C13.v).')
+PROPS["C15"]["level_note"] += (' ' + _FDL_OS + 'C15_oracle_sound_partial: of the rules of C15 only R15_no_reply_no_timeout can be reported on a model '
+    'transcript (all input histories, app_sends_data); the executable round-robin acceptor and the pass-to-self detection from the transmitted token '
+    'agree with the Coq acceptors (witnessing the own pass keeps NS: FdlOracleSound4.witness_own_pass_ns).')
+PROPS["C15"]["partial_gap"] += ' Oracle soundness: the liveness rule R15_no_reply_no_timeout is NOT yet covered.'
+PROPS["C11"]["level_note"] += (' ' + _FDL_OS + 'C11_oracle_sound_partial: of the rules of C11 only the liveness rule supervision_never_ends can be '
+    'reported on a model transcript (all input histories, app_sends_data): accept_while_listening, accept_without_token, accept_from_stranger, '
+    'offer_changes_ring_view, retry_too_early, too_many_retries, removed_too_early, heard_but_supervising never fire. Uses that the slot time covers '
+    'the synchronisation pause for builder-valid parameters (a retry is never deferred to a later poll) and that the telegrams the monitor sees '
+    'delivered are those the receive loops hand to handle_telegram.')
+PROPS["C11"]["partial_gap"] += ' Oracle soundness: the liveness rule supervision_never_ends is NOT yet covered.'
+PROPS["C12"]["level_note"] += (' ' + _FDL_OS + 'C12_oracle_sound_partial: the rules gap_poll_outside_gap, two_gap_polls_per_visit, found_not_successor, '
+    'found_not_next_token, successor_changed_without_ready_reply are never reported on a model transcript (all input histories, app_sends_data); '
+    'C12_oracle_sound_partial_req: for applications that transmit request telegrams (app_sends_requests) also reply_without_request, reply_untruthful, '
+    'reply_from_wrong_state are never reported - only sweep_bound, post_claim_scan_incomplete and gap_wait_never_ends remain.')
+PROPS["C12"]["partial_gap"] += (' Oracle soundness: the rules sweep_bound, post_claim_scan_incomplete and the liveness rule gap_wait_never_ends are NOT yet '
+    'covered; the reply rules are covered only for applications that send request telegrams (a response telegram with the own source address from an '
+    'application would be taken for a status reply).')
